@@ -17,7 +17,7 @@ import multiprocessing
 import os
 from concurrent.futures import ProcessPoolExecutor, ThreadPoolExecutor
 
-from .. import c14_real, c14_replay, tlc
+from .. import c14_lockorder, c14_real, c14_replay, tlc
 from ..core import Report
 
 ASSUMPTIONS = [
@@ -40,6 +40,10 @@ ASSUMPTIONS = [
     "a Progress violation only when every unfinished probe thread is found inside a lock acquisition of the "
     "library, otherwise a machinery failure",
     "the pty responder answers requests in arrival order (FIFO terminal)",
+    "lock order (LockOrder): the programs are the acquire/release sequences recorded from the real entry points "
+    "(lock identity = object; re-entrant re-acquisitions dropped); the law quantifies over pairs (thorough: also 120 "
+    "seeded triples) of entry points with every fact that is read under the terminal lock already warm; the same "
+    "fact cold on both sides is outside the law and recorded under extra.lock_order as an observation",
     "initialisation (TtyInit): the active terminal is the tty behind stdout, stdin, stderr (in that order), else "
     "/dev/tty; whenever one is found Process.start and Process.run must be the library's wrappers; probed by real "
     "imports in fresh sessions over all 16 combinations (one pty each)",
@@ -253,6 +257,45 @@ def validate_init(rep: Report, obs: list[dict]):
     rep.extra["init_environments"] = sources
 
 
+def check_lock_order(rep: Report, src: str, triples: bool):
+    """specs/LockOrder.tla over the lock programs recorded from the real code."""
+    rec = c14_lockorder.record(src)
+    c14_lockorder.guard(rec)
+    a = c14_lockorder.analyse(rec, triples=triples, seed=rep.seed)
+    rep.add_tlc(a["res"])
+    rep.traces_validated += a["combos"]
+    rep.evaluations += a["combos"]
+    rep.distinct.update(("lock-order", i) for i in range(a["combos"]))
+    if a["tamper_reported"] is False:
+        raise tlc.MachineryError("lock-order: a tampered program (draw_screen reading another fact's cache lock) was not reported")
+    info = {"programs": len(rec["programs"]), "locks": rec["locks"], "combinations": a["combos"],
+            "tampered_program_reported": a["tamper_reported"], "deadlocks": len(a["deadlocks"])}
+    for n, d in enumerate(a["deadlocks"]):
+        conf = None
+        if len(d["members"]) == 2 and n < 2:
+            conf = c14_lockorder.confirm(src, rec, d, a["coll"])
+            if not conf["deadlock"]:
+                raise tlc.MachineryError(f"lock-order: LockOrder.tla reports a dead-lock of {d['members']} that the real code "
+                                         f"does not show under the same schedule: {conf}")
+        A, B = d["members"][0], " | ".join(d["members"][1:])
+        rep.violation(
+            f"lock-order:{A}|{B}:deadlock",
+            f"{' || '.join(d['members'])} dead-lock: after the schedule {d['schedule']} (one outermost lock operation per "
+            f"step) thread k waits for lock {d['waits']} = {d['locks']}, each held by another thread; every fact read "
+            f"under the terminal lock was warm.  Recorded programs (outermost operations): "
+            + "; ".join(f"{m}: " + " ".join(('+' if s['op'] == 'acq' else '-') + rec['locks'][str(s['l'])] for s in a['coll'][m][:12])
+                        for m in d["members"])
+            + (f".  Confirmed on the real code under the cooperative scheduler: {conf['blocked']}" if conf else ""),
+            {"kind": "lockorder", "members": d["members"], "schedule": d["schedule"]},
+        )
+    for d in a["observations"]:
+        conf = c14_lockorder.confirm(src, rec, d, a["coll"]) if len(d["members"]) == 2 else None
+        info.setdefault("observations_outside_the_law", []).append(
+            {"members": d["members"], "waits_for": d["locks"], "schedule": d["schedule"],
+             "confirmed_on_real_code": bool(conf and conf["deadlock"])})
+    rep.extra["lock_order"] = info
+
+
 def compress(ev):
     out = []
     for e in ev:
@@ -321,6 +364,8 @@ def _main(rep: Report, replay: dict | None) -> None:
         elif sc.get("kind") == "sync":
             p, od = c14_real.launch_sync(os.path.join(rep.extra.get("repo", "/repo"), "src"), [sc["member"]])
             validate_sync(rep, c14_real.collect_sync(p, od), selfcheck=False)
+        elif sc.get("kind") == "lockorder":
+            check_lock_order(rep, os.path.join(rep.extra.get("repo", "/repo"), "src"), len(sc.get("members", [])) > 2)
         elif sc.get("kind") == "init":
             validate_init(rep, c14_real.run_init_envs(os.path.join(rep.extra.get("repo", "/repo"), "src")))
         elif sc.get("kind") == "real":
@@ -340,7 +385,8 @@ def _main(rep: Report, replay: dict | None) -> None:
     jobs = real_jobs(rep)
     first = [c14_real.launch(j) for j in jobs[:6]]
     sync_p = c14_real.launch_sync(os.path.join(rep.extra.get("repo", "/repo"), "src"))
-    tail = ThreadPoolExecutor(max_workers=3)
+    tail = ThreadPoolExecutor(max_workers=4)
+    lock_f = tail.submit(check_lock_order, rep, os.path.join(rep.extra.get("repo", "/repo"), "src"), not quick)
     init_f = tail.submit(c14_real.run_init_envs, os.path.join(rep.extra.get("repo", "/repo"), "src"))
 
     cover: dict = {}
@@ -408,7 +454,7 @@ def _main(rep: Report, replay: dict | None) -> None:
     # the three trace validations are independent TLC runs: run them side by side
     futs = [tail.submit(validate_sync, rep, c14_real.collect_sync(*sync_p)),
             tail.submit(validate_init, rep, init_f.result()),
-            tail.submit(validate_real, rep, traces)]
+            tail.submit(validate_real, rep, traces), lock_f]
     errors = []
     for f in futs:
         try:
